@@ -77,6 +77,8 @@ class Case:
         out = [f'extern "C" __attribute__((noinline)) void k_{s.id}({s.sig()}) {{ {s.kernel_src} }}']
         if s.ref_src is not None:
             out.append(f'extern "C" __attribute__((noinline)) void r_{s.id}({s.sig()}) {{ {s.ref_src} }}')
+        if getattr(s, 'alt_ref_src', None) is not None:
+            out.append(f'extern "C" __attribute__((noinline)) void q_{s.id}({s.sig()}) {{ {s.alt_ref_src} }}')
         return '\n'.join(out)
 
     # ---- symbolic inputs
@@ -165,6 +167,16 @@ class Case:
             for a in s.args:
                 if isinstance(a, Scal) or a.role == 'in': continue
                 obls += s.compare_buf(a, kp, rp, pc)
+        if getattr(s, 'alt_ref_src', None) is not None:
+            # documented alternative evaluation (e.g. reciprocal-multiply): element-wise disjunction of the two references
+            qp = s.explore(mod, 'q_' + s.id, lambda: s.share_dom(kp.dom), kp.pc, stats)
+            if len(qp) != 1 or len(rpaths) != 1 or qp[0].status != 'ok': raise EncodingError('alternative reference forks')
+            alt = []
+            for a in s.args:
+                if isinstance(a, Scal) or a.role == 'in': continue
+                alt += s.compare_buf(a, kp, qp[0], qp[0].pc)
+            for o, o2 in zip(obls, alt):
+                if o.goal is not None and o2.goal is not None: o.goal = z3.Or(o.goal, o2.goal); o.note = 'either reference'
         return obls
 
     def share_dom(s, dom):
